@@ -239,7 +239,8 @@ pub struct SliceReport {
 
 /// Which replies are compared between implementation and model: everything.
 fn first_disagreement(imp: &[String], model: &[String]) -> Option<usize> {
-    (0..imp.len()).find(|&i| imp[i] != model[i])
+    // `SPEC` marks an operation only the Lean side answers (the spec's fold)
+    (0..imp.len()).find(|&i| imp[i] != model[i] && imp[i] != "SPEC")
 }
 
 /// Run all cases through the implementation and the model; collect failures.
